@@ -19,9 +19,12 @@ View == <<stage, f, g, h, op, aff, sched>>
 None == [none |-> TRUE]
 
 FSet == TreesN(NF, PredSet(PF), TermSet(TF), K)
-GSet == TreesN(NG, PredSet(PG), TermSet(TG), K)
+GSetAll == TreesN(NG, PredSet(PG), TermSet(TG), K)
+\* "arithdeep": deep total right operands (paths of different length below the grafted root), + and - only
+GSet == IF MODE = "arithdeep" THEN {x \in GSetAll : IsTotal(x) /\ NumDec(x) >= 3} ELSE GSetAll
 Ops == CASE MODE = "compose" -> {"compose"}
          [] MODE = "arith" -> {"add", "sub", "mul", "div"}
+         [] MODE = "arithdeep" -> {"add", "sub"}
          [] MODE = "reduce" -> {"reduce"}
          [] MODE = "arithaff" -> {"neg", "add_aff", "sub_aff", "mul_aff", "div_aff"}
          [] MODE = "prune" -> {"eliminate"}
@@ -37,11 +40,11 @@ PickF == \E x \in FSet, lay \in LAYOUTS :
     /\ f' = [abs |-> x, lay |-> lay, t |-> BuildTree(x, K, lay)]
     /\ stage' = "f" /\ UNCHANGED <<g, h, op, aff, sched, hist>>
 PickG == \E x \in GSet :
-    /\ stage = "f" /\ MODE \in {"compose", "arith", "pruneg", "prunea"}
+    /\ stage = "f" /\ MODE \in {"compose", "arith", "arithdeep", "pruneg", "prunea"}
     /\ g' = [abs |-> x, lay |-> "dfs", t |-> BuildTree(x, K, "dfs")]
     /\ stage' = "fg" /\ UNCHANGED <<f, h, op, aff, sched, hist>>
 Apply == \E o \in Ops :
-    /\ \/ (stage = "fg" /\ MODE \in {"compose", "arith"}) \/ (stage = "f" /\ MODE = "reduce")
+    /\ \/ (stage = "fg" /\ MODE \in {"compose", "arith", "arithdeep"}) \/ (stage = "f" /\ MODE = "reduce")
        \/ (stage = "f" /\ MODE = "prune") \/ (stage = "fg" /\ MODE \in {"pruneg", "prunea"})
     /\ op' = o
     /\ h' = CASE o = "compose" -> Compose(f.t, g.t)
@@ -122,7 +125,9 @@ HistNext ==
     \/ \E x \in HistArith : HistDo("sub", x, NoAff, Arith("sub", h, BuildTree(x, K, "dfs")))
 
 \* C02: apply_func(a) is the special case of an affine right operand
-ApplyFuncAct == \E a \in TermSet(TG) :
+\* plus a pure translation of the output space (identity matrix, non-zero offset)
+OutDimF == Len((CHOOSE x \in TermSet(TF) : TRUE).m)
+ApplyFuncAct == \E a \in {x \in TermSet(TG) : Cols(x.m) = OutDimF} \cup {Aff(Eye(OutDimF), [i \in 1..OutDimF |-> 2 * i - 3])} :
     /\ stage = "f" /\ MODE = "compose"
     /\ op' = "apply_func" /\ aff' = a /\ h' = ApplyFunc(f.t, a)
     /\ stage' = "done" /\ UNCHANGED <<f, g, sched, hist>>
